@@ -116,7 +116,7 @@ def run(chk):
             dist["complete"] += out[s.meta["done_op"]][0].startswith("ok")
             dist["with_repair"] += bool(s.meta["lost"]); dist["duplicates"] += len(s.meta["seq"]) != len(set(s.meta["seq"]))
             nt.append(l)
-            if len(chk.failures) > 10: break
+            if chk.too_many(): break
         chk.note_cases("v1-%s%s" % (which, "-ffr" if ffr else ""), lines, nt, sample_n=1, dist=dist)
         if not ffr:
             both.append((which, scns, outs))
